@@ -241,6 +241,9 @@ class Impl:
             self.site_at(op[1]).add_resource(op[2], self.resource.Site())
         elif t == "F":
             self.site_at(op[1]).add_resource(op[2], self.RecLeaf(op[3]))
+        elif t == "A":
+            # the SAME nested Site object registered under a second path (e.g. /v1 and /latest)
+            self.site_at(op[3]).add_resource(op[4], self.site_at(op[1])._subsites[tuple(op[2])])
         elif t == "R":
             _, addr, path, rid, hidden, attrs, kind = op
             if kind == "wkc":
@@ -453,6 +456,8 @@ def oracle(case, obs):
             ref_at(root, op[1]).subsites[tuple(op[2])] = RefSite()
         elif t == "F":
             ref_at(root, op[1]).subsites[tuple(op[2])] = ("leaf", op[3])
+        elif t == "A":
+            ref_at(root, op[3]).subsites[tuple(op[4])] = ref_at(root, op[1]).subsites[tuple(op[2])]
         elif t == "R":
             _, addr, path, rid, hidden, attrs, kind = op
             ref_at(root, addr).resources[tuple(path)] = (rid, hidden, attrs)
@@ -856,6 +861,46 @@ def boundary_routing_cases():
     return cases
 
 
+def boundary_alias_cases():
+    """one nested Site object registered under two paths (side by side, one below the other's parent, below
+    different parents), with resources added before and after the second registration, removals through one
+    name, discovery with and without filters; oracle only"""
+    cases = []
+    for where in ("siblings", "nested-parent", "two-parents"):
+        for late in (False, True):
+            for drop in (None, "first", "second"):
+                b = Builder(None)
+                if where == "siblings":
+                    src, dst = ([], ["v1"]), ([], ["latest"])
+                elif where == "nested-parent":
+                    b.add_site([], ["p"])
+                    src, dst = ([], ["v1"]), ([["p"]], ["again"])
+                else:
+                    b.add_site([], ["f1"]); b.add_site([], ["f2"])
+                    src, dst = ([["f1"]], ["blk"]), ([["f2"]], ["blk"])
+                b.add_site(src[0], src[1])
+                inner = [list(x) for x in src[0]] + [src[1]]
+                b.add_res(inner, ["temp"], hidden=False, attrs=[["rt", "temp"]], kind="rec")
+                b.add_wkc()
+                b.ops.append(["A", [list(a) for a in src[0]], list(src[1]), [list(a) for a in dst[0]], list(dst[1])])
+                if late:
+                    b.add_res(inner, ["hum"], hidden=False, attrs=[["rt", "hum"]], kind="rec")
+                full1 = [c for a in src[0] for c in a] + src[1]
+                full2 = [c for a in dst[0] for c in a] + dst[1]
+                if drop == "first":
+                    b.ops.append(["D", [list(a) for a in src[0]], list(src[1])])
+                elif drop == "second":
+                    b.ops.append(["D", [list(a) for a in dst[0]], list(dst[1])])
+                for full in (full1, full2):
+                    b.get(full + ["temp"], entry="pipe")
+                    b.get(full + ["hum"], entry="pipe")
+                b.get(WK, entry="pipe")
+                b.ops.append(["G", None, list(WK), ["rt=temp"], "pipe"])
+                b.ops.append(["G", None, list(WK), ["href=/" + "/".join(full2) + "/*"], "pipe"])
+                cases.append(b.case)
+    return cases
+
+
 def boundary_upa_cases():
     """every registered Uri-Path-Abbrev value and its neighbours, with and without a resource at
     the expanded path, alone and together with a Uri-Path"""
@@ -961,7 +1006,7 @@ def run(env, rep):
             c["impl_info"] = impl_uri
         cases.append(c)
         rep.count("source=corpus")
-    bt = boundary_routing_cases() + boundary_upa_cases() + boundary_filter_cases(impl_uri)
+    bt = boundary_routing_cases() + boundary_upa_cases() + boundary_filter_cases(impl_uri) + boundary_alias_cases()
     rep.count("source=boundary", len(bt))
     rep.exhaustive_parts.append(f"routing boundary table ({len(boundary_routing_cases())} histories), Uri-Path-Abbrev table "
                                 "and filter pattern table enumerated in full")
@@ -981,6 +1026,10 @@ def run(env, rep):
             v = oracle(case, obs)
             if v:
                 rep.oracle_fail(case, v[0], key=v[1])
+            if any(op[0] == "A" for op in case["ops"]):
+                # one Site object under two paths: the model's trees are values, judged by the oracle only
+                rep.count("oracle-only:shared-site-object")
+                continue
             lines.append(case_line(case))
             impl_outs.append(" ".join(outs) if outs else "-")
             kept.append(case)
